@@ -49,8 +49,8 @@ def queries(tier):
         qs.append(Q('dsparse_len%d' % L, 'P', 'h_dsparse.c', {'LEN': L}, 10 if L <= 2 else 14, unwindset=PLOOP % (L + 2), mem_gb=12, timeout=1800,
                     desc='parse_data_string on %d arbitrary symbolic bytes equals the reference data-string parser (data and mask), strtoull/strtod/strtof contract stubs' % L,
                     bounds='len(text) == %d, all byte values, mask requested or not, flags == 0' % L))
-    for L in ([0] if quick else [0, 1]):
-        qs.append(Q('dsround_len%d' % L, 'P', 'h_dsround.c', {'LEN': L}, 5 * L + 8, mem_gb=6 if L == 0 else 24, timeout=900 if L == 0 else 1800, desc='parse_data_string(format_data_string(d, mask, flags)) == (d, mask classes) for %d symbolic bytes' % L,
+    for L in ([0, 1] if quick else [0, 1, 2]):
+        qs.append(Q('dsround_len%d' % L, 'P', 'h_dsround.c', {'LEN': L}, 5 * L + 8, unwindset=PRINTF_LOOPS + ',' + PLOOP % (5 * L + 4), mem_gb=6 if L == 0 else 24, timeout=900 if L == 0 else 1800, desc='parse_data_string(format_data_string(d, mask, flags)) == (d, mask classes) for %d symbolic bytes' % L,
                     bounds='len(data) == %d, all byte values, all masks, with/without mask, both flag values' % L))
     # hex dump cells: (name, SIZE, START, FLAGS, WIDTH, [(C1, C2) ...])
     ALLCUTS3 = [(a, b) for a in range(0, 4) for b in range(a, 4)]
